@@ -323,3 +323,35 @@ def run(ctx) -> None:
     ctx.check("R8", ok_pad,
               "numeric legacy parts are yielded zero-padded (string order == numeric order)", f"{M}._parse_version_parts: numeric parts are not zero-padded strings",
               f"`{unparse(dy[0].value) if dy else None}`: '10' would sort before '9'", loc=pvp.loc(dig[0]))
+
+    # ---------------------------------------------------------------- R7 (continued): segment order of the canonical form
+    order = []
+    for st in vs.node.body:
+        for x in ast.walk(st):
+            if isinstance(x, ast.Attribute) and unparse(x.value) == "self" and x.attr in ("epoch", "release", "pre", "post", "dev", "local") and x.attr not in order:
+                order.append(x.attr)
+    ctx.check("R7", order == ["epoch", "release", "pre", "post", "dev", "local"], "Version.__str__ prints epoch, release, pre, post, dev, local in this order",
+              f"{M}.Version.__str__: segments are printed in a non-canonical order", f"order {order}: e.g. 1.0a1.dev2 would print as 1.0.dev2a1, which is not PEP 440 and does not parse back",
+              loc=vs.loc(), witness="1.0a1.dev2")
+    # ---------------------------------------------------------------- R8 (continued): the implicit post release `1.0-0`
+    # `if not letter and number:` relies on `number` being the captured text ("0" is truthy); an int 0 would drop the segment
+    truthy_number = [n for n in ast.walk(plv.node) if isinstance(n, (ast.If, ast.IfExp, ast.BoolOp))
+                     for _c, leaf in shapes.bool_contexts(n.test if not isinstance(n, ast.BoolOp) else n) if isinstance(leaf, ast.Name) and leaf.id == plv.params[1]]
+    if truthy_number:
+        conv = []
+        for fq_, calls_ in ctx.effects.calls.items():
+            for node_, callee_ in calls_:
+                if callee_.fq == plv.fq and isinstance(node_, ast.Call) and len(node_.args) >= 2:
+                    a_ = node_.args[1]
+                    caller_ = prog.function(fq_)
+                    for c_ in ast.walk(a_):
+                        if isinstance(c_, ast.Call):
+                            nm_ = unparse(c_.func)
+                            t_ = prog.resolve_call(caller_, c_, count=False)
+                            returns_int = t_.fn is not None and t_.fn.returns is not None and "int" in unparse(t_.fn.returns)
+                            if nm_ == "int" or returns_int:
+                                conv.append((caller_, node_))
+        ctx.check("R8", not conv, "_parse_letter_version: the number tested for presence is the captured text (\"0\" counts as present)",
+                  f"{M}._parse_letter_version: the number is converted to int before its presence is tested by truthiness",
+                  f"`{unparse(conv[0][1])[:90]}`: `if not letter and number` is false for the int 0, so the implicit post release `1.0-0` loses its post segment (1.0-0 == 1.0)" if conv else "",
+                  loc=conv[0][0].loc(conv[0][1]) if conv else plv.loc(), witness=["1.0-0", "1.0"])
